@@ -79,6 +79,6 @@ func rpcModelSlot(x *rpcRun, commitment, headRoot *felt.Felt, resp *rpcResp, ld 
 	}
 	x.hist("coq-client-verifier:" + strings.Fields(m + " ?")[0])
 	if m != want {
-		x.c.Violation("model-vs-rpc-client-verifier:"+x.tag, fmt.Sprintf("contract %s key %s: Go verifier %s, Coq client verifier %s", addr.String(), key.String(), want, m), nil, true)
+		x.c.Violation("model-vs-rpc-client-verifier:"+x.tag, fmt.Sprintf("contract %s key %s: Go verifier %s, Coq client verifier %s", addr.String(), key.String(), want, m), map[string]any{"oracle_line": sb.String()}, true)
 	}
 }
